@@ -146,7 +146,7 @@ func TestVerifC14(t *testing.T) {
 	p := gDefaultProfile
 	p.PFresh = 0.12
 	p.WLeave = 6
-	n := r.N(800, 25000)
+	n := r.N(800, 15000)
 	for ci := 0; ci < n; ci++ {
 		rng := r.Rand(ci)
 		cfg := gGenConfig(rng, p, fmt.Sprintf("g%d", ci))
